@@ -102,6 +102,35 @@ pub fn hnf_shapes(s: &mut Src) -> R {
     Ok(())
 }
 
+/// C09 over a polynomial ring (BOUNDED, sampled): snf over F_5[x] on 2 x 2 and 2 x 3 matrices with entries of degree <= 2: D = P A Q,
+/// two-sided inverses, D diagonal, each entry normalised (monic or zero), the first divides the second, zero entries last.
+pub fn snf_poly_ff5(s: &mut Src) -> R {
+    use yui::{FF, Ring, EucRing};
+    use yui::poly::Poly;
+    use yui_matrix::MatTrait;
+    use num_traits::{Zero, One};
+    type F = FF<5>;
+    type P = Poly<'x', F>;
+    let n = s.small(2, 3) as usize;
+    let mut es: Vec<P> = vec![];
+    for _ in 0..6 { let c = [s.small(0, 4) as i32, s.small(0, 4) as i32, s.small(0, 4) as i32]; let k = s.small(0, 3) as usize; es.push(P::from_iter(c.iter().take(k).enumerate().map(|(i, &c)| (P::mono(i), F::from(c))))); }
+    reach!();
+    let a = Mat::from_data((2, n), es.into_iter().take(2 * n).collect::<Vec<_>>());
+    let r = snf(&a, [true; 4]);
+    let d = r.result().clone();
+    let (p, pinv, q, qinv) = (r.p().unwrap(), r.pinv().unwrap(), r.q().unwrap(), r.qinv().unwrap());
+    ob!(d.shape() == (2, n), "snf<F5[x]>::shape");
+    ob!(&(p * &a) * q == d, "snf<F5[x]>::D==P.A.Q");
+    ob!(p * pinv == Mat::id(2) && pinv * p == Mat::id(2) && q * qinv == Mat::id(n) && qinv * q == Mat::id(n), "snf<F5[x]>::two-sided-inverses");
+    ob!(d.is_diag(), "snf<F5[x]>::D-is-diagonal");
+    let (d0, d1) = (d[(0, 0)].clone(), d[(1, 1)].clone());
+    ob!(d0.normalizing_unit().is_one() && d1.normalizing_unit().is_one(), "snf<F5[x]>::diagonal-normalised");
+    ob!(!(d0.is_zero() && !d1.is_zero()), "snf<F5[x]>::non-zero-entries-first");
+    ob!(d1.is_zero() || (&d1 % &d0).is_zero(), "snf<F5[x]>::first-divides-second");
+    let _ = P::one();
+    Ok(())
+}
+
 /// the same over Z[i] (units other than +-1 exercise the inverse bookkeeping): 2x2, small entries
 pub fn snf_gauss_small(s: &mut Src) -> R {
     use yui::GaussInt;
@@ -460,4 +489,4 @@ pub fn snf_mat_ops(s: &mut Src) -> R {
     }
     Ok(())
 }
-crate::harness_table!(SNF: snf_small [unwind 4], snf_gauss_small [unwind 4], trans_small [unwind 4], lll_small [unwind 4], snf_mat_ops [unwind 4], lll_rows45 [unwind 4], spmat_ops_small [unwind 4], spvec_mat_ops_small [unwind 4], snf_shapes [unwind 4], hnf_shapes [unwind 4]);
+crate::harness_table!(SNF: snf_small [unwind 4], snf_gauss_small [unwind 4], trans_small [unwind 4], lll_small [unwind 4], snf_mat_ops [unwind 4], lll_rows45 [unwind 4], spmat_ops_small [unwind 4], spvec_mat_ops_small [unwind 4], snf_shapes [unwind 4], hnf_shapes [unwind 4], snf_poly_ff5 [unwind 4]);
